@@ -258,7 +258,7 @@ class HistogramDensityMethod(BatchDetector):
 
         X, _, _ = super()._validate_input(X, None, None)
         X = pd.DataFrame(
-            X, columns=self._input_cols
+            X, columns=self.reference.columns
         )  # TODO: subsequent operations expect dataframes, not numpy arrays
 
         super().update(X, None, None)
